@@ -15,14 +15,15 @@ import (
 var badInput = []int64{-999999}
 
 type opT struct {
-	Code int64
-	Pod  cachectl.PodSpec
-	Node cachectl.NodeX
-	PG   cachectl.PGSpec
-	Prio cachectl.PrioSpec
-	A    []int64 // ids
-	OK   bool
-	F    int64 // bind: 1 bound, 0 Binder.Bind fails, 2 / 3 pre-bind fails with status update ok / failing
+	Code  int64
+	Pod   cachectl.PodSpec
+	Node  cachectl.NodeX
+	PG    cachectl.PGSpec
+	Prio  cachectl.PrioSpec
+	Batch []cachectl.BindCtx
+	A     []int64 // ids
+	OK    bool
+	F     int64 // bind: 1 bound, 0 Binder.Bind fails, 2 / 3 pre-bind fails with status update ok / failing
 }
 
 func (o opT) enc() []int64 {
@@ -53,6 +54,12 @@ func (o opT) enc() []int64 {
 		return []int64{o.Code}
 	case 7:
 		return []int64{7, o.A[0], o.A[1], o.A[2]}
+	case 19:
+		out := []int64{19, int64(len(o.Batch))}
+		for _, x := range o.Batch {
+			out = append(out, x.J, x.T, x.N, x.F)
+		}
+		return out
 	case 11:
 		return []int64{11, o.A[0], o.A[1], o.A[2], o.F}
 	case 12:
@@ -138,6 +145,18 @@ func decCase(in []int64) (ops []opT, ok bool) {
 			o.Prio = cachectl.PrioSpec{ID: pos(), Value: next(), Global: next() != 0}
 		case 7:
 			o.A = []int64{pos(), next(), next()}
+		case 19:
+			m := next()
+			if m < 0 {
+				fail = true
+			}
+			for k := int64(0); k < m && !fail; k++ {
+				x := cachectl.BindCtx{J: pos(), T: pos(), N: pos(), F: next()}
+				if x.F < 0 || x.F > 4 {
+					fail = true
+				}
+				o.Batch = append(o.Batch, x)
+			}
 		case 18:
 			o.A = []int64{next()}
 			if o.A[0] < 0 {
@@ -283,6 +302,11 @@ func run(sel int, in []int64) []int64 {
 				out = append(out, -105, same)
 				continue
 			}
+			if o.Code == 19 {
+				codes := c.BindBatch(o.Batch)
+				out = append(out, -106, int64(len(codes)))
+				out = append(out, codes...)
+			}
 			res := apply(c, o)
 			out = append(out, -101, res)
 			out = append(out, c.Dump()...)
@@ -312,6 +336,12 @@ func quiescent(ops []opT) bool {
 			if o.OK {
 				await[o.A[1]] = true
 			}
+		case 19:
+			for _, x := range o.Batch {
+				if x.F == 1 {
+					await[x.T] = true
+				}
+			}
 		case 14:
 			gone[o.A[0]] = true
 		case 1:
@@ -329,7 +359,7 @@ func quiescent(ops []opT) bool {
 
 // split the output of selector 1 at the step markers
 func segments(got []int64) (marks []int64, segs [][]int64) {
-	isMark := func(v int64) bool { return v <= -101 && v >= -105 }
+	isMark := func(v int64) bool { return v <= -101 && v >= -106 }
 	i := 1
 	for i < len(got) {
 		if !isMark(got[i]) {
@@ -355,8 +385,26 @@ func laws(sel int, in, got []int64, law func(lsel int, lin []int64, sig string))
 	ops, _ := decCase(in)
 	marks, segs := segments(got)
 	var last []int64
+	batches := []opT{}
+	for _, o := range ops {
+		if o.Code == 19 {
+			batches = append(batches, o)
+		}
+	}
 	for k, m := range marks {
 		switch m {
+		case -106:
+			// right after a batch: every accepted context whose API side failed is queued for resync
+			b := batches[0]
+			batches = batches[1:]
+			keys := []int64{}
+			for i, x := range b.Batch {
+				if segs[k][1+i] == 0 && x.F != 1 {
+					keys = append(keys, x.J, x.T)
+				}
+			}
+			lin := cat(segs[k+1][1:], []int64{int64(len(keys) / 2)})
+			law(105, cat(lin, keys), "")
 		case -101:
 			last = segs[k][1:]
 			law(101, last, "")
